@@ -323,6 +323,97 @@ func run() int {
 		}
 	}
 
+	// ---- mode portfolio: obligations undecided over bit-vectors are retried in mathematical-integer mode
+	// (exact wrap-around encoding, interval-elided); either encoding is a faithful model of the Go semantics.
+	intRetried := 0
+	intDischarged := 0
+	{
+		undecidedFns := map[string]bool{}
+		for _, g := range groups {
+			if g.Kind != "cover" && g.Status == "undecided" {
+				undecidedFns[g.Fn] = true
+			}
+		}
+		for i := 0; i < len(jobs) && len(undecidedFns) > 0; i++ {
+			j := jobs[i]
+			name := vc.FnDisplay(j.fn)
+			if !undecidedFns[name] || (j.ct != nil && j.ct.Mode == "int") {
+				continue
+			}
+			r2 := w.VerifyFn(j.fn, j.ct, vc.VerifyOpts{ForceInt: true, SafetyOnly: j.safety && (j.ct == nil || !j.ct.Props[*prop])})
+			if r2.OutOfSubset != "" {
+				if *verbose {
+					fmt.Fprintf(os.Stderr, "int-mode retry of %s: out of subset: %s\n", name, r2.OutOfSubset)
+				}
+				continue
+			}
+			intRetried++
+			byName := map[string][]*vc.Obligation{}
+			for _, o := range r2.Obls {
+				byName[o.Name] = append(byName[o.Name], o)
+			}
+			var wg2 sync.WaitGroup
+			for gname, g := range groups {
+				if g.Fn != name || g.Kind == "cover" || g.Status != "undecided" {
+					continue
+				}
+				os2 := byName[gname]
+				if len(os2) == 0 {
+					continue
+				}
+				for _, o := range os2 {
+					if o.Trivial {
+						continue
+					}
+					o := o
+					asserts := append([]*vc.Term{}, o.Assume...)
+					asserts = append(asserts, r2.Ctx.Not(o.Goal))
+					script := r2.Ctx.Script(w.Prelude, asserts, nil)
+					wg2.Add(1)
+					par <- struct{}{}
+					go func() {
+						defer wg2.Done()
+						defer func() { <-par }()
+						res := w.PF.Solve(script, timeout)
+						o.Status, o.Solver, o.TimeS, o.Raw, o.SMTHash = res.Status, res.Solver, res.TimeS, res.Raw, res.Hash
+					}()
+				}
+			}
+			wg2.Wait()
+			for gname, g := range groups {
+				if g.Fn != name || g.Kind == "cover" || g.Status != "undecided" {
+					continue
+				}
+				os2 := byName[gname]
+				if len(os2) == 0 {
+					continue
+				}
+				all := true
+				var bad *vc.Obligation
+				for _, o := range os2 {
+					if o.Status == "sat" && bad == nil {
+						bad = o
+					}
+					if o.Status != "unsat" && o.Status != "trivial" {
+						all = false
+					}
+				}
+				if all {
+					g.Status = "discharged"
+					g.Solver = "int-mode:" + os2[0].Solver
+					intDischarged++
+				} else if bad != nil {
+					g.Status = "failed"
+					g.Worst = bad
+					ctxOf[bad] = r2
+				}
+			}
+		}
+	}
+	if *verbose && intRetried > 0 {
+		fmt.Fprintf(os.Stderr, "int-mode retry: %d functions, %d obligations discharged\n", intRetried, intDischarged)
+	}
+
 	// ---- known findings / not-claimed ----
 	known := loadKnown(filepath.Join(*verifDir, "known_findings.txt"), *prop)
 	if *ignoreKF {
@@ -411,6 +502,9 @@ func run() int {
 		gr := groups[r.Name+"#cover:return"]
 		if gr != nil && gr.Status == "cover-failed" {
 			vac = append(vac, r.Name+": no normal return reachable")
+		}
+		if gr == nil && r.Paths == 0 && (r.Contract == nil || !r.Contract.Lemma) {
+			vac = append(vac, r.Name+": symbolic execution produced no terminating path")
 		}
 	}
 	if nObl == 0 && len(knownHit) == 0 {
